@@ -36,3 +36,4 @@ def rules(ctx):
     S.buddy_split_rules(ctx)
     S.replaced_range_rules(ctx)
     S.survey_residue_rules(ctx)
+    S.restore_commit_rules(ctx)
